@@ -189,7 +189,10 @@ impl Proj {
                 }
                 uid += 1;
             }
-            steps.push(Step { uid, outs: vec![manifest.clone()], nexp: 1, ins: vec!["gen.in".into()], imp, oo, val: vec![], phony: false, ver: 0, pool: None, rsp: None, deps: 0, restat: false, regen: true, subgen: false });
+            // the generator may be of the write-if-changed kind, and may report what it read through a depfile
+            let gen_deps = if o.deps && t.chance(25) { 1 } else { 0 };
+            let gen_restat = t.chance(30);
+            steps.push(Step { uid, outs: vec![manifest.clone()], nexp: 1, ins: vec!["gen.in".into()], imp, oo, val: vec![], phony: false, ver: 0, pool: None, rsp: None, deps: gen_deps, restat: gen_restat, regen: true, subgen: false });
             sources.push("gen.in".into());
         }
         let n = steps.len();
@@ -203,7 +206,8 @@ impl Proj {
             let all: Vec<String> = steps.iter().filter(|s| !s.regen).flat_map(|s| s.outs.clone()).collect();
             if !all.is_empty() {
                 for _ in 0..1 + t.below(2) {
-                    let d = all[t.below(all.len())].clone();
+                    // a default may also name a plain source file (nothing to build for it)
+                    let d = if t.chance(20) { sources[t.below(sources.len())].clone() } else { all[t.below(all.len())].clone() };
                     if !defaults.contains(&d) {
                         defaults.push(d);
                     }
@@ -524,5 +528,18 @@ pub fn refcanon_keep_trailing(p: &str) -> String {
         format!("{}/", c)
     } else {
         c
+    }
+}
+
+/// Spellings of a command-line target: those of `respell` plus two that mix the separator characters
+/// (n2 reads both `/` and `\` as separators).
+pub fn respell_target(p: &str, k: usize) -> String {
+    match k % 6 {
+        4 => match p.rfind('/') {
+            Some(i) => format!("{}/\\{}", &p[..i], &p[i + 1..]),
+            None => format!(".\\/{}", p),
+        },
+        5 => format!(".\\{}", p).replace(".\\", ".\\./"),
+        k => respell(p, k),
     }
 }
